@@ -535,9 +535,80 @@ def rho_sim(n, y0, thr, cst):
             return g, c
 
 
-def pick_start(n, thr, want, base, cst, limit=40000):
-    """least y >= base whose walk modulo n ends as wanted: 'composite' / 'prime' (a proper factor of that kind),
-    'restart' (g == n: failure with the initial value), 'one' (budget exhausted); None when there is none below base+limit"""
+def small_prime_factors(n):
+    """distinct prime factors of n when all of them are below 2000 and n is square-free, else None"""
+    ps = []
+    for p in SMALLP:
+        if p * p > n and n > 1:
+            break
+        if n % p == 0:
+            n //= p
+            if n % p == 0:
+                return None
+            ps.append(p)
+    if n > 1:
+        if n >= 2000:
+            return None
+        ps.append(n)
+    return ps
+
+
+def crt(pairs):
+    y, m = 0, 1
+    for r, p in pairs:
+        y += m * ((r - y) * pow(m, -1, p) % p)
+        m *= p
+    return y
+
+
+def fixed_point_start(n, thr, want, base, cst):
+    """A start value built by the Chinese remainder theorem: modulo the primes of a chosen subset S it is a FIXED POINT of
+    y -> y^2 + cst, modulo the other primes it is not.  The first step of the walk then has y1 - y0 = 0 exactly modulo the
+    primes of S, so the gcd is their product: a composite factor of our choice (all primes with a fixed point but one),
+    or n itself (restart).  The value is checked with rho_sim before it is used."""
+    if thr == 1:
+        return None
+    ps = small_prime_factors(n)
+    if not ps or len(ps) < 2:
+        return None
+    fp = {p: [y for y in range(p) if (y * y + cst - y) % p == 0] for p in ps}
+    have = [p for p in ps if fp[p]]
+    if want == "restart":
+        if len(have) != len(ps):
+            return None
+        S = ps
+    else:
+        if len(have) < 2:
+            return None
+        S = have if len(have) < len(ps) else have[:base % len(have)] + have[base % len(have) + 1:]
+    pairs = []
+    for k, p in enumerate(ps):
+        if p in S:
+            pairs.append((fp[p][base % len(fp[p])], p))
+        else:
+            r = (base + k) % p
+            while (r * r + cst - r) % p == 0:
+                r = (r + 1) % p
+            pairs.append((r, p))
+    y = crt(pairs)
+    g, c = rho_sim(n, y, thr, cst)
+    restart = g == n and (thr == 0 or c < thr)
+    if want == "restart":
+        return y if restart else None
+    return y if (not restart and g not in (1, n) and not is_prime(g)) else None
+
+
+def pick_start(n, thr, want, base, cst, limit=1500):
+    """a start value whose walk modulo n ends as wanted: 'composite' / 'prime' (a proper factor of that kind),
+    'restart' (g == n: failure with the initial value), 'one' (budget exhausted).  Composite / restart: by construction
+    (fixed_point_start) when the primes of n allow it; otherwise the least y >= base found by trying; None when there is none"""
+    if want in ("composite", "restart"):
+        y = fixed_point_start(n, thr, want, base, cst)
+        if y is not None:
+            return y
+        ps = small_prime_factors(n)
+        if want == "composite" and ps is not None and len(ps) < 3:
+            return None                      # a square-free n with two prime factors has no composite proper factor
     for y in range(base, base + limit):
         g, c = rho_sim(n, y, thr, cst)
         restart = g == n and (thr == 0 or c < thr)
@@ -631,11 +702,15 @@ def scripted_cases(rng, K, add, thorough):
     """deterministic part: every path class on fixed n, for every seed; plus the same plans on seed-dependent n"""
     P = [x for x in SMALLP if 101 <= x <= 499]
     N6 = 101 * 103 * 107 * 109 * 113 * 127
-    fixed = [(N6, {101: 1, 103: 1, 107: 1, 109: 1, 113: 1, 127: 1}), (N6 * 131, {101: 1, 103: 1, 107: 1, 109: 1, 113: 1, 127: 1, 131: 1})]
+    M7 = {103: 1, 109: 1, 127: 1, 139: 1, 151: 1, 157: 1, 163: 1}      # all = 1 (mod 3): y^2 + 1 has fixed points modulo each
+    fixed = [(N6, {101: 1, 103: 1, 107: 1, 109: 1, 113: 1, 127: 1}), (N6 * 131, {101: 1, 103: 1, 107: 1, 109: 1, 113: 1, 127: 1, 131: 1}), (prod_fac(M7), M7)]
+    P1 = [x for x in P if x % 3 == 1]
     rnd = []
     for k in range(3 if not thorough else 40):
         ps = set()
-        while len(ps) < 5 + k % 3:
+        while len(ps) < 4 + k % 3:
+            ps.add(rng.choice(P1))
+        while len(ps) < 5 + k % 3 + k % 2:
             ps.add(rng.choice(P))
         rnd.append((prod_fac({p: 1 for p in ps}), {p: 1 for p in ps}))
     extra = " ".join(str(x) for x in range(900, 912))        # spare script values: a mutant may draw more than the plan
@@ -665,8 +740,8 @@ def scripted_cases(rng, K, add, thorough):
         emit("s.factor", n, 0, ["composite"], f, base=rng.range(0, 50))
         emit("s.pollard", n, 0, ["prime"], f, base=rng.range(0, 50))
     # restart (g == n): at the first call, in the one-shot re-split, inside the loop
-    for ps, plan in (((101, 103), ["restart", "prime"]), ((101, 103, 107), ["composite", "restart", "prime"]),
-                     ((101, 103, 107, 109), ["composite", "composite", "restart", "prime"]), ((211, 223), ["restart", "restart", "prime"])):
+    for ps, plan in (((103, 109), ["restart", "prime"]), ((103, 109, 127), ["composite", "restart", "prime"]),
+                     ((103, 109, 127, 139), ["composite", "composite", "restart", "prime"]), ((211, 223), ["restart", "restart", "prime"])):
         f = {p: 1 for p in ps}
         n = prod_fac(f)
         for v in ("s.iffactorprime", "s.primefactor", "s.set2", "s.divisors", "s.pollard", "s.factor"):
@@ -680,8 +755,8 @@ def scripted_cases(rng, K, add, thorough):
                 continue
             emit(v, N6, thr, plan, f6, base=rng.range(0, 20))
     for thr in (30, 12):
-        emit("s.iffactorprime", 101 * 103, thr, ["restart", "prime"], {101: 1, 103: 1}, base=rng.range(0, 20))
-        emit("s.pollard", 101 * 103, thr, ["restart", "one"], {101: 1, 103: 1}, base=rng.range(0, 20))
+        emit("s.iffactorprime", 103 * 109, thr, ["restart", "prime"], {103: 1, 109: 1}, base=rng.range(0, 20))
+        emit("s.pollard", 103 * 109, thr, ["restart", "one"], {103: 1, 109: 1}, base=rng.range(0, 20))
     # in-place call forms (result object == argument): cascade-only n, n that needs the walk, primes, 1, 2
     smalls = [4, 6, 9, 25, 49, 121, 13 * 13, 23 * 23, 2 * 23, 3 * 19, 29 * 31, 31 * 31, 97 * 97, 73 * 97, 2 * 101, 9 * 10007, 97 * 10007, 223092870, 1, 2, 3, 13, 97, 101, 10007]
     for n in smalls:
